@@ -898,6 +898,17 @@ func main() {
 				c.Add(*cs)
 				return c.Finish(rule)
 			}
+			var rr struct {
+				RealRun bool `json:"realrun"`
+			}
+			if err := FromJSON(c.Replay, &rr); err == nil && rr.RealRun {
+				cs, err := runRealRun()
+				if err != nil {
+					return err
+				}
+				c.Add(*cs)
+				return c.Finish(rule)
+			}
 			var sup SupReplay
 			if err := FromJSON(c.Replay, &sup); err == nil && sup.Sup {
 				cs, err := runSup(sup)
@@ -981,7 +992,16 @@ func main() {
 		}
 		supRes := make([]*Case, len(supJobs))
 		supErrs := make([]error, len(supJobs))
+		var realRun *Case
+		var realErr error
+		realDone := make(chan struct{})
+		go func() { realRun, realErr = runRealRun(); close(realDone) }()
 		Parallel(len(supJobs), 8, func(i int) { supRes[i], supErrs[i] = runSup(supJobs[i]) })
+		<-realDone
+		if realErr != nil {
+			return realErr
+		}
+		c.Add(*realRun)
 		for i := range supJobs {
 			if supErrs[i] != nil {
 				return supErrs[i]
